@@ -297,7 +297,7 @@ def check_top_text(text, where):
 def norm_ws(s):
     return re.sub(r'\s+', ' ', s).strip()
 
-def weave_text(text, entries, relpath, specpath, skipped=None):
+def weave_text(text, entries, relpath, specpath, skipped=None, exclude=None):
     """skipped: None = strict (any anchor failure raises); a list = lenient: an entry whose anchor does not
     fire is left out, together with every other entry of the same function, and recorded in the list as
     (relpath, function, reason).  Groups that enforce/replace/apply loop contracts of such a function are
@@ -306,7 +306,14 @@ def weave_text(text, entries, relpath, specpath, skipped=None):
     funcs = find_functions(text, masked)
     if skipped is not None:
         bad = {}
+        # functions whose woven clauses no longer COMPILE against the changed body (found by the runner: goto-cc names
+        # the function and the spec line) are treated like functions whose anchors do not fire
         for e in entries:
+            if exclude and e['fn'] in exclude:
+                bad.setdefault(e['fn'], exclude[e['fn']])
+        for e in entries:
+            if e['fn'] in bad:
+                continue
             try:
                 weave_text(text, [e], relpath, specpath, None)
             except WeaveError as ex:
@@ -383,7 +390,7 @@ STRIP_RE = re.compile(r'\n' + re.escape(OPEN) + r'.*?' + re.escape(CLOSE), re.S)
 def strip_woven(woven):
     return STRIP_RE.sub('', woven)
 
-def weave_tree(repo, contracts_dir, dest):
+def weave_tree(repo, contracts_dir, dest, exclude=None):
     """Copy repo/{lib,src,config.h,test/*.h} to dest and weave every spec.  Returns a report."""
     os.makedirs(dest, exist_ok=True)
     report = {'files': {}, 'anchors': 0}
@@ -412,7 +419,7 @@ def weave_tree(repo, contracts_dir, dest):
             text = open(src, encoding='latin-1').read()
             entries = parse_spec(specpath)
             woven, funcs = weave_text(text, entries, rel, os.path.relpath(specpath, os.path.dirname(contracts_dir)),
-                                      report.setdefault('skipped', []))
+                                      report.setdefault('skipped', []), exclude)
             with open(os.path.join(dest, rel), 'w', encoding='latin-1') as f:
                 f.write(woven)
             report['files'][rel] = {'anchors': len(entries), 'functions': sorted(funcs)}
